@@ -243,7 +243,35 @@ StartDuringReorg(d, n, S) ==
     /\ UNCHANGED sent
     /\ Step("StartDuringReorg", [d |-> d, n |-> n, txs |-> S])
 
+(* The connection to the backend is re-established while the wallet keeps     *)
+(* running (ClientConnected again: the wallet synchronises with the chain     *)
+(* once more), either quietly or with a reorganisation whose notifications    *)
+(* arrive while that rescan is under way.  The wallet was in sync, so the      *)
+(* effect is that of the reorganisation alone.                                *)
+Reconnect ==
+    /\ running
+    /\ UNCHANGED <<bvars, running, wchain, wconf, lastDisc>>
+    /\ Step("Reconnect", <<>>)
+
+ReconnectDuringReorg(d, n, S) ==
+    /\ running
+    /\ d \in 1..MaxDepth /\ d <= Tip - MinKeep /\ n \in {d, d + 1}
+    /\ Tip - d + n <= MaxLen /\ nextId + n - 1 <= MaxBlocks
+    /\ LET base == Tip - d
+           back == {t \in Txs : conf[t] > base}
+           mem  == Mempool \cup back
+       IN  /\ S \subseteq mem
+           /\ chain' = SubSeq(chain, 1, base) \o [i \in 1..n |-> nextId + i - 1]
+           /\ nextId' = nextId + n
+           /\ conf' = [t \in Txs |-> IF t \in S THEN base + 1 ELSE IF t \in back THEN 0 ELSE conf[t]]
+           /\ lastDisc' = <<base, SubSeq(chain, base + 1, Tip)>>
+           /\ SetW(Connects(Disconnects(W, chain, d), base + 1, nextId, n, S))
+    /\ UNCHANGED <<sent, running>>
+    /\ Step("ReconnectDuringReorg", [d |-> d, n |-> n, txs |-> S])
+
 Next ==
+    \/ On("Reconnect") /\ Reconnect
+    \/ On("Reconnect") /\ \E d \in 1..MaxDepth, n \in 1..(MaxDepth+1), S \in SUBSET Txs : ReconnectDuringReorg(d, n, S)
     \/ On("StartDuringReorg") /\ \E d \in 1..MaxDepth, n \in 1..(MaxDepth+1), S \in SUBSET Txs : StartDuringReorg(d, n, S)
     \/ \E t \in Txs : Receive(t)
     \/ \E S \in SUBSET Txs : Extend(S)
